@@ -12,8 +12,8 @@ deriving instance DecidableEq for Except
 /-- witnesses live on this world: PIDs 101 and 105 (child of 101), the object is 105 -/
 def w0 : World :=
   { target := 105
-    procs := [⟨101, 1, 50, false, false, [(101, false)], [], false⟩,
-              ⟨105, 101, 100, false, false, [(105, false)], [], false⟩] }
+    procs := [⟨101, 1, 50, false, false, [(101, false)], [], false, [.file, .anon]⟩,
+              ⟨105, 101, 100, false, false, [(105, false)], [], false, [.file, .anon]⟩] }
 
 /-- two refused accesses (indices i and j, EACCES) of a call on a process that is `life` throughout -/
 def twoDeny (w : World) (life : WS) (i j : Nat) : Ctx :=
@@ -33,9 +33,9 @@ instance (pid : Nat) (r : Option (Except PyExc Val)) : Decidable (OKopt pid r) :
 /-- PIDs 50 ← 101 ← 105; the object is 101 (it has the child 105) -/
 def wc : World :=
   { target := 101
-    procs := [⟨50, 0, 10, false, false, [(50, false)], [], false⟩,
-              ⟨101, 50, 50, false, false, [(101, false)], [], false⟩,
-              ⟨105, 101, 100, false, false, [(105, false)], [], false⟩] }
+    procs := [⟨50, 0, 10, false, false, [(50, false)], [], false, [.file, .anon]⟩,
+              ⟨101, 50, 50, false, false, [(101, false)], [], false, [.file, .anon]⟩,
+              ⟨105, 101, 100, false, false, [(105, false)], [], false, [.file, .anon]⟩] }
 
 /-- (method, world, state of the process, the two refused access indices, what leaks) -/
 def twoDenialLeaks : List (String × World × WS × Nat × Nat × PyExc) :=
@@ -68,9 +68,9 @@ instance (b : Host) (w : World) (nm : String) (B : Nat) : Decidable (BoundedSafe
 /-- PIDs 50 ← 101 ← 105; the object is 105 -/
 def w1 : World :=
   { target := 105
-    procs := [⟨50, 0, 10, false, false, [(50, false)], [], false⟩,
-              ⟨101, 50, 50, false, false, [(101, false)], [], false⟩,
-              ⟨105, 101, 100, false, false, [(105, false)], [], false⟩] }
+    procs := [⟨50, 0, 10, false, false, [(50, false)], [], false, [.file, .anon]⟩,
+              ⟨101, 50, 50, false, false, [(101, false)], [], false, [.file, .anon]⟩,
+              ⟨105, 101, 100, false, false, [(105, false)], [], false, [.file, .anon]⟩] }
 
 
 /-! ### "the class matches the cause" (`Spec.Cause`), enumerated -/
